@@ -13,7 +13,9 @@ from . import roles
 class RunEval:
     """plan:  x = call(fx);  lit = 7;  c = call(fc, x, lit, k=x);  d = call(fd, x);  output = c"""
 
-    def __init__(self, m, rr, fail=None, user_frames=None):
+    def __init__(self, m, rr, fail=None, user_frames=None, fail_exc="ValueError", interpret_errors=False, scope=None):
+        self.fail_exc = fail_exc
+        self.interpret_errors = interpret_errors
         from .rewriterules import World
         self.m, self.rr = m, rr
         self.user_frames = user_frames  # None: legacy anonymous chain; 0: the failing callable is C-implemented; n: n Python frames
@@ -37,7 +39,17 @@ class RunEval:
         w.interp.ext.setdefault("threading.Lock", lambda: Obj(None, {}, "lock"))
         w.interp.ext.setdefault("threading.RLock", lambda: Obj(None, {}, "lock"))
         w.interp.stubs["prune_source_literals"] = Stub("prune_source_literals", lambda p, **kw: p)
-        w.interp.stubs["create_chained_call_error"] = Stub("create_chained_call_error", lambda node, exc: ("chained", node, exc))
+        if not interpret_errors:
+            w.interp.stubs["create_chained_call_error"] = Stub("create_chained_call_error", lambda node, exc: ("chained", node, exc))
+        else:
+            # the error objects handed to the observer are built by the package's own code: calls carry a real frame object and
+            # a scope whose values are not strings
+            sfc = m.one_class("StackFrame", "EVAL")
+            frame = Obj(sfc, {"name": "user_function", "path": "/user/app.py", "line": 12, "outer": None}, name="frame")
+            for n_ in (self.x, self.c, self.d, self.s1, self.s2):
+                n_.attrs["stack_frame"] = frame
+                if scope is not None:
+                    n_.attrs["scope"] = scope
         self.observer = Obj(None, {k: Stub(k, self._ev(k)) for k in ("increment_running", "increment_completed", "increment_failed",
                                                                       "increment_total")}, name="observer")
 
@@ -51,7 +63,7 @@ class RunEval:
             self.calls.append((tag, a, k))
             if fail == tag:
                 if self.user_frames is None:
-                    raise AbsRaise(Obj(None, {"__traceback__": _tb(6)}, name="ValueError"))
+                    raise AbsRaise(Obj(None, {"__traceback__": _tb(6)}, name=self.fail_exc))
                 # the user's exception with the traceback entries of the user's own frames (a function created by exec in a bare
                 # namespace: its globals have no __name__); the evaluator adds the entries of the interpreted uberjob frames
                 stack = getattr(self.w.interp, "env_stack", [])
@@ -226,6 +238,24 @@ def rule_run_callback(ctx, rr, rid_binding=None, rid_slots=None, rid_release=Non
         ctx.ob(rid_binding, f"{rr.bound_run.short}/through-retry", ok, loc(rr.bound_run),
                "each user function is invoked through retry(fn)" if ok else
                f"the user functions are not (all) wrapped by the retry decorator (decorated: {[getattr(a, 'name', a) for a in ev.applied]})")
+        # a failing function is invoked once (per attempt) whatever it raises: an exception class that uberjob's own code also
+        # produces (TypeError for an unhashable key, KeyError / AttributeError for a missing entry ...) must not be mistaken for one
+        # of its own and answered by calling the function again
+        again = []
+        for exc_ in ("TypeError", "KeyError", "AttributeError", "LookupError", "StopIteration", "RuntimeError"):
+            try:
+                e3 = RunEval(m, rr, fail="c", fail_exc=exc_)
+                t3, o3, p3 = e3.prepare()
+                e3.process(p3, e3.x)
+                r3 = e3.process(p3, e3.c)
+            except AbsRaise as ex_:
+                raise AnalysisError(f"abstract evaluation of the run callback raised {ex_.value!r}")
+            k_ = sum(1 for c_ in e3.calls if c_[0] == "c")
+            if k_ != 1 or r3 is None:
+                again.append(f"raising {exc_}: invoked {k_} time(s)" + ("" if r3 is not None else ", failure swallowed"))
+        ctx.ob(rid_binding, f"{rr.bound_run.short}/one-invocation-per-attempt", not again, loc(rr.bound_run),
+               "evaluated: a function that raises TypeError / KeyError / AttributeError / LookupError / StopIteration / RuntimeError is invoked once and the failure propagates"
+               if not again else "evaluated with a failing function - " + "; ".join(again[:3]))
         ok = out_slot is not None and out_slot.attrs.get("value") == "Vc"
         ctx.ob(rid_binding, f"{f.short}/result-in-output-slot", ok, loc(f),
                "the value returned by the output call ends up in the output slot" if ok else
@@ -278,6 +308,21 @@ def rule_run_callback(ctx, rr, rid_binding=None, rid_slots=None, rid_release=Non
         ctx.ob(rid_bracket, f"{f.short}/bracket-on-success", ok, loc(f),
                "evaluated: each call reports running then completed with the same section and scope; a literal reports nothing" if ok else
                f"evaluated: the notifications for x, literal, c were {ev.events!r}")
+        # the same with the error objects built by the package itself (nothing stubbed) and scope values that are not strings
+        try:
+            evs = RunEval(m, rr, fail="c", interpret_errors=True, scope=(1, ("t", 2.5), None))
+            ts_, os_s, ps_ = evs.prepare()
+            evs.process(ps_, evs.x)
+            errs = evs.process(ps_, evs.c)
+            kinds_ = [e[0] for e in evs.events]
+            oks = kinds_ == ["increment_running", "increment_completed", "increment_running", "increment_failed"] and errs is not None
+            whys = f"notifications {kinds_}, raised {getattr(errs, 'name', errs)!r}"
+        except AbsRaise as e_:
+            oks, whys = False, f"evaluation raised {e_.value!r}"
+        ctx.ob(rid_bracket, f"{f.short}/bracket-on-failure[scope values of any type]", oks, loc(f),
+               "evaluated with the package's own error construction and a scope (1, ('t', 2.5), None): a failing call reports running then failed" if oks else
+               f"evaluated with a scope (1, ('t', 2.5), None) and a failing call: building the error for the observer fails - {whys}; "
+               f"'running' is never followed by 'failed'")
         okf = well_formed(evf.events, ["increment_running", "increment_completed"] * 2 + ["increment_running", "increment_failed"]) and err is not None
         ctx.ob(rid_bracket, f"{f.short}/bracket-on-failure", okf, loc(f),
                "evaluated: a failing call reports running then failed (once), and the failure propagates" if okf else
